@@ -34,12 +34,13 @@ type Node struct {
 	Removed  bool
 	Version  uint32
 	Mode     uint32
+	QExtra   p9p.QType // further qid type bits (QTAPPEND, QTEXCL, QTTMP) next to QTDIR
 }
 
 func (n *Node) Qid() p9p.Qid {
-	q := p9p.Qid{Path: n.ID, Version: n.Version}
+	q := p9p.Qid{Path: n.ID, Version: n.Version, Type: n.QExtra}
 	if n.Dir {
-		q.Type = p9p.QTDIR
+		q.Type |= p9p.QTDIR
 	}
 	return q
 }
@@ -122,8 +123,10 @@ func New() *FS {
 //	/a/ (dir)  /a/x (file)  /a/d/ (dir)  /a/d/y (file)  /f (file)  /e/ (empty dir)
 func (fs *FS) Populate() {
 	a := fs.addNode(fs.Root, "a", true)
+	a.QExtra = p9p.QTTMP // a directory whose qid type is not just QTDIR
 	fs.addNode(a, "x", false).Data = []byte("contents of x")
 	d := fs.addNode(a, "d", true)
+	d.QExtra = p9p.QTAPPEND | p9p.QTEXCL
 	fs.addNode(d, "y", false).Data = []byte("yy")
 	fs.addNode(fs.Root, "f", false).Data = []byte("file f data")
 	fs.addNode(fs.Root, "e", true)
@@ -358,6 +361,21 @@ func (h *Handle) OpenDir(ctx context.Context) (p9p.ReadNext, error) {
 	}, nil
 }
 
+// QExtraOf: the qid type bits a created file gets from its permission bits.
+func QExtraOf(perm uint32) p9p.QType {
+	var q p9p.QType
+	if perm&p9p.DMAPPEND != 0 {
+		q |= p9p.QTAPPEND
+	}
+	if perm&p9p.DMEXCL != 0 {
+		q |= p9p.QTEXCL
+	}
+	if perm&p9p.DMTMP != 0 {
+		q |= p9p.QTTMP
+	}
+	return q
+}
+
 func validName(name string) bool {
 	if name == "" || name == "." || name == ".." {
 		return false
@@ -392,6 +410,7 @@ func (h *Handle) Create(ctx context.Context, name string, perm uint32, mode p9p.
 	}
 	n := fs.addNode(h.Node, name, perm&p9p.DMDIR != 0)
 	n.Mode = perm & 0777
+	n.QExtra = QExtraOf(perm)
 	nh := fs.newHandle(n, true, c)
 	nh.file = &OpenFile{H: nh}
 	fs.mu.Unlock()
